@@ -75,6 +75,18 @@ class Dct:
         return "dict{" + ",".join("%s:%s" % (k.key, getattr(v, "key", "?")) for k, v in self.items.items()) + "}"
 
 
+class ObjDictView(Dct):
+    """obj.__dict__: a dict whose string keys are the instance attributes of `obj` (writes go through to the object)."""
+
+    def __init__(self, obj):
+        self.obj = obj
+        self.unknown = False
+
+    @property
+    def items(self):
+        return {Const(k): v for k, v in self.obj.attrs.items()}
+
+
 class FuncV:
     def __init__(self, fi, frame=None, self_obj=None, cls_ctx=None):
         self.fi = fi
@@ -97,6 +109,11 @@ class LambdaV:
     def __init__(self, node, frame, module):
         self.node, self.frame, self.module = node, frame, module
         self.key = "lambda@%d" % node.lineno
+
+
+def _is_empty_container(v):
+    return (isinstance(v, Dct) and not v.unknown and not v.items) or (isinstance(v, Lst) and not v.items and not v.pappends and not v.unknown) \
+        or (isinstance(v, Const) and v.value is None)
 
 
 def _tuple_like(v):
@@ -566,6 +583,8 @@ class Evaluator:
         if isinstance(v, Obj):
             if name in v.attrs:
                 return v.attrs[name]
+            if name == "__dict__":
+                return ObjDictView(v)
             return self.class_attr(v.cls, name, v, node)
         if isinstance(v, SuperV):
             mro = v.obj.cls.mro()
@@ -658,7 +677,7 @@ class Evaluator:
                             raise RaiseSignal(App("AttributeError", (Const(name),)), node)
                         self.call(val.fset, [target, value], {}, node)
                         return
-            self.event("attr_store", obj=target, attr=name, value=value, in_init=target.in_init > 0, node=node)
+            self.event("attr_store", obj=target, attr=name, value=value, in_init=target.in_init > 0, node=node, empty=_is_empty_container(value))
             target.attrs[name] = value
             return
         self.event("foreign_attr_store", target=target, attr=name, node=node)
@@ -1096,18 +1115,25 @@ class Evaluator:
         raise AnalysisError("cannot unpack %r" % (v,))
 
     def store(self, t, base, idx, v, fr):
+        if isinstance(base, ObjDictView):
+            if isinstance(idx, Const) and isinstance(idx.value, str):
+                self.event("attr_store", obj=base.obj, attr=idx.value, value=v, in_init=base.obj.in_init > 0, node=t, empty=_is_empty_container(v))
+                base.obj.attrs[idx.value] = v
+                return
+            raise AnalysisError("store into __dict__ with a non-constant key")
         if isinstance(base, Dct):
             owner = None
             f = fr
             while f is not None and owner is None:
-                so = f.self_obj
-                if isinstance(so, Obj):
-                    for an, av in so.attrs.items():
-                        if av is base:
-                            owner = (so, an)
+                cands = [f.self_obj] + [x for x in f.vars.values() if isinstance(x, Obj)]
+                for so in cands:
+                    if isinstance(so, Obj) and owner is None:
+                        for an, av in so.attrs.items():
+                            if av is base:
+                                owner = (so, an)
                 f = f.parent
             if owner is not None:
-                self.event("dict_store", obj=owner[0], attr=owner[1], key=idx, in_init=owner[0].in_init > 0, node=t)
+                self.event("dict_store", obj=owner[0], attr=owner[1], key=idx, value=v, in_init=owner[0].in_init > 0, node=t)
             if isinstance(idx, V):
                 base.items[idx] = v
             else:
